@@ -157,7 +157,7 @@ func ruleErrorsLookedAt(r *Report, rule string, pkgFilter func(rel string) bool,
 				if fl, ok := x.(*ast.FuncLit); ok {
 					ast.Inspect(fl.Body, func(y ast.Node) bool {
 						if id, ok := y.(*ast.Ident); ok {
-							if o := info.ObjectOf(id); o != nil && o.Pos() < fl.Pos() {
+							if o := info.ObjectOf(id); o != nil && !declaredWithin(info, fl, o) {
 								captured[o] = true
 							}
 						}
@@ -234,7 +234,7 @@ func ruleErrorsLookedAt(r *Report, rule string, pkgFilter func(rel string) bool,
 						return true
 					}
 					v := info.ObjectOf(id)
-					if v == nil || !isErrorType(v.Type()) || !(v.Pos() < bu.Lit.Pos() || v.Pos() > bu.Lit.End()) || outerNamed[v] || isNilIdent(info, as.Rhs[0]) || !declaredInParent(v) {
+					if v == nil || !isErrorType(v.Type()) || declaredWithin(info, bu.Lit, v) || outerNamed[v] || isNilIdent(info, as.Rhs[0]) || !declaredInParent(v) {
 						return true
 					}
 					if g == nil {
@@ -336,7 +336,7 @@ func ruleErrorsLookedAt(r *Report, rule string, pkgFilter func(rel string) bool,
 						return true
 					}
 					live := liveAfter(info, g, l, v, named[v])
-					if bu.Lit != nil && (v.Pos() < bu.Lit.Pos() || v.Pos() > bu.Lit.End()) {
+					if bu.Lit != nil && !declaredWithin(info, bu.Lit, v) {
 						// variable of the enclosing function
 						if !isDeferred {
 							live = true // a callback: the enclosing function goes on and may read it
